@@ -344,10 +344,11 @@ COMMUTATIVE = {'Add', 'AddWithOverflow', 'Mul', 'MulWithOverflow', 'BitAnd', 'Bi
 _NORM_OP = {'AddWithOverflow': 'Add', 'SubWithOverflow': 'Sub', 'MulWithOverflow': 'Mul', 'AddUnchecked': 'Add', 'SubUnchecked': 'Sub'}
 
 
-def vexpr(fn, op, depth=16, _seen=None):
+def vexpr(fn, op, depth=16, _seen=None, at=None):
     """Canonical symbolic expression (a string) of the value of an operand / place inside one function, built from
     parameters, constants, field paths, arithmetic and the result of calls. Two equal strings denote the same
-    computation (reads of the same place are identified; the caller must rule out intervening writes)."""
+    computation (reads of the same place are identified; the caller must rule out intervening writes, or declare them
+    with store_overlay(): a read of a declared place at a statement the store dominates evaluates to the stored value)."""
     _seen = _seen or set()
     if op is None:
         return '?'
@@ -360,14 +361,31 @@ def vexpr(fn, op, depth=16, _seen=None):
             return 'fn:' + op['fn']
         return 'const<%s>%s' % (op['c'], (':' + op['uneval']) if 'uneval' in op else '')
     p = op_place(op) if ('cp' in op or 'mv' in op) else op
-    return _vexpr_place(fn, p, depth, _seen)
+    return _vexpr_place(fn, p, depth, _seen, at)
 
 
-def _vexpr_place(fn, p, depth, seen):
+def store_overlay(fn, stores):
+    """Declare stores to parameter-based places for vexpr: stores = [(place string such as 'arg1.pos', bb, statement index, value string)].
+    The value string is in terms of the state before the store."""
+    fn._overlay = list(stores)
+
+
+def _after(fn, at, bb, j):
+    if at is None:
+        return False
+    if at[0] == bb:
+        return at[1] is None or (j is not None and at[1] > j)
+    return fn.dominates(bb, at[0])
+
+
+def _vexpr_place(fn, p, depth, seen, at=None):
     l = p['l']
     projs = [x for x in place_projs(p)]
     suffix = ''.join(proj_str(x) for x in projs if x != '*')
     if 1 <= l <= fn.argc:
+        for ps, bb, j, val in getattr(fn, '_overlay', ()):
+            if ps == 'arg%d%s' % (l, suffix) and _after(fn, at, bb, j):
+                return val
         return 'arg%d%s' % (l, suffix)
     if depth <= 0 or l in seen:
         return '_%d%s' % (l, suffix)
@@ -383,6 +401,8 @@ def _vexpr_place(fn, p, depth, seen):
 
 
 def _vexpr_def(fn, d, depth, seen):
+    if getattr(fn, '_overlay', None):
+        return _vexpr_def_at(fn, d, depth, seen)
     if d[0] == 'call':
         c = d[3]
         nm = c.name()
@@ -416,6 +436,42 @@ def _vexpr_def(fn, d, depth, seen):
         return 'discr(%s)' % _vexpr_place(fn, rv['p'], depth, seen)
     return k
 
+
+
+def _vexpr_def_at(fn, d, depth, seen):
+    at = (d[1], d[2])
+    if d[0] == 'call':
+        c = d[3]
+        nm = c.name()
+        if nm in ('len',) and c.args:
+            return 'len(%s)' % vexpr(fn, c.args[0], depth, seen, at)
+        if fn._transparent(c) and c.args:
+            return vexpr(fn, c.args[0], depth, seen, at)
+        if nm in ('branch',) and c.args:    # Try::branch(x) keeps the payload
+            return vexpr(fn, c.args[0], depth, seen, at)
+        return '%s(%s)' % (nm, ','.join(vexpr(fn, a, depth, seen, at) for a in c.args))
+    rv = d[3]
+    k = rv['k']
+    if k in ('use', 'cast'):
+        return vexpr(fn, rv['a'], depth, seen, at)
+    if k in ('ref', 'rawptr'):
+        return _vexpr_place(fn, rv['p'], depth, seen, at)
+    if k == 'bin':
+        a = vexpr(fn, rv['a'], depth, seen, at)
+        b = vexpr(fn, rv['b'], depth, seen, at)
+        op = _NORM_OP.get(rv['op'], rv['op'])
+        if rv['op'] in COMMUTATIVE or op in COMMUTATIVE:
+            a, b = sorted([a, b])
+        return '%s(%s,%s)' % (op, a, b)
+    if k == 'un':
+        return '%s(%s)' % (rv['op'], vexpr(fn, rv['a'], depth, seen, at))
+    if k == 'agg':
+        if rv['ak'] == 'adt':
+            return '%s::%s{%s}' % (rv['adt'].rsplit('::', 1)[-1], rv['v'], ','.join('%s:%s' % (n, vexpr(fn, o, depth, seen, at)) for n, o in zip(rv['fn'], rv['ops'])))
+        return '%s(%s)' % (rv['ak'], ','.join(vexpr(fn, o, depth, seen, at) for o in rv['ops']))
+    if k == 'discr':
+        return 'discr(%s)' % _vexpr_place(fn, rv['p'], depth, seen, at)
+    return k
 
 def try_edges(fn, call):
     """For a call whose Result/Option is tested (`?`, match, if let, is_ok/is_some): list of (branch_bb, ok_target, err_target)."""
